@@ -1,0 +1,44 @@
+//! Verification seams, compiled only under `--cfg rustrtc_verif`.
+//!
+//! Nothing here changes behaviour of the library: it adds an in-memory socket kind whose
+//! outbound datagrams are handed to a harness-owned channel, and a thread-local queue that
+//! lets a harness force the values returned by `random_u32()` (empty by default).
+use std::cell::RefCell;
+use std::collections::VecDeque;
+use std::net::SocketAddr;
+use tokio::sync::mpsc;
+
+/// (bytes, from, to)
+pub type VerifDatagram = (Vec<u8>, SocketAddr, SocketAddr);
+
+#[derive(Debug)]
+pub struct VerifSocket {
+    pub local: SocketAddr,
+    pub tx: mpsc::UnboundedSender<VerifDatagram>,
+}
+
+impl VerifSocket {
+    pub fn send(&self, data: &[u8], to: SocketAddr) -> anyhow::Result<usize> {
+        self.tx
+            .send((data.to_vec(), self.local, to))
+            .map_err(|_| anyhow::anyhow!("verif socket closed"))?;
+        Ok(data.len())
+    }
+}
+
+thread_local! {
+    static FORCED_U32: RefCell<VecDeque<u32>> = RefCell::new(VecDeque::new());
+}
+
+/// Queue values to be returned by the next calls of `random_u32()` on this thread.
+pub fn force_u32(values: &[u32]) {
+    FORCED_U32.with(|q| q.borrow_mut().extend(values.iter().copied()));
+}
+
+pub fn clear_forced_u32() {
+    FORCED_U32.with(|q| q.borrow_mut().clear());
+}
+
+pub fn forced_u32() -> Option<u32> {
+    FORCED_U32.with(|q| q.borrow_mut().pop_front())
+}
